@@ -774,39 +774,9 @@ namespace bloch::runtime {
         for (size_t i = 0; i < params.size(); ++i) {
             if (i)
                 oss << ",";
-            if (!params[i].className.empty())
-                oss << params[i].className;
-            else {
-                switch (params[i].kind) {
-                    case Value::Type::Int:
-                        oss << "int";
-                        break;
-                    case Value::Type::Float:
-                        oss << "float";
-                        break;
-                    case Value::Type::Bit:
-                        oss << "bit";
-                        break;
-                    case Value::Type::String:
-                        oss << "string";
-                        break;
-                    case Value::Type::Char:
-                        oss << "char";
-                        break;
-                    case Value::Type::Qubit:
-                        oss << "qubit";
-                        break;
-                    case Value::Type::Object:
-                        oss << "object";
-                        break;
-                    case Value::Type::ObjectArray:
-                        oss << "object[]";
-                        break;
-                    default:
-                        oss << "unknown";
-                        break;
-                }
-            }
+            // typeKey() names every parameter type (long, boolean and arrays included), so that
+            // overloads differing only in such a type get distinct signatures.
+            oss << typeKey(params[i]);
         }
         oss << ")";
         return oss.str();
